@@ -648,7 +648,7 @@ func (d *hoDriver) mutatedProcess(h int64, round, proposer int, now time.Time, v
 	}
 	muts := []string{"reorder", "dupBlock", "dropBlock", "blockLater", "blockLaterValid", "blockChild", "blockChild", "blockPairLater", "blockPairFirst", "wrongParent", "wrongNumber", "wrongBeacon", "wrongProposer", "wrongRecipient",
 		"recipientPadded", "recipientShort", "sysAdded", "sysRemoved", "sysAltered", "countByte", "reqGarbage", "gas0", "gas2", "futureTime", "engineInvalid", "engineSyncing", "tooMany", "empty",
-		"garbageRest", "timeoutWrong", "badSig", "blob", "excessBlob", "gasFields"}
+		"garbageRest", "timeoutWrong", "badSig", "blob", "excessBlob", "gasFields", "paddedParent", "paddedBeacon"}
 	mut := muts[r.Intn(len(muts))]
 	// when system transactions of BOTH modules are due, often cut the list inside / right after the bridge's part
 	nb, nl := 0, 0
@@ -868,6 +868,17 @@ func (d *hoDriver) mutatedProcess(h int64, round, proposer int, now time.Time, v
 		p.BlobGasUsed = []uint64{1, 2, 65536, 131071, 131072, 131073, 262144}[r.Intn(7)] // any blob gas at all, not only whole blobs
 		rehash(p)
 		txs = append([][]byte{blockTx(p, proposer, sim.SignOpts{})}, rest...)
+	case "paddedParent", "paddedBeacon":
+		// the right 32 bytes with extra bytes in front: not the recorded parent hash / beacon root (although a conversion that keeps
+		// the last 32 bytes maps it to them, and the block hash the engine checks is the honest one)
+		p := clone()
+		if mut == "paddedParent" {
+			p.ParentHash = append([]byte{0xde, 0xad}, p.ParentHash...)
+		} else {
+			p.BeaconRoot = append([]byte{0x99}, p.BeaconRoot...)
+		}
+		rehash(p)
+		txs = append([][]byte{blockTx(p, proposer, sim.SignOpts{})}, rest...)
 	case "excessBlob", "gasFields":
 		// unusual but admissible header values (no blob gas USED): the proposal is acceptable if the engine says VALID, and what
 		// the engine is told at the end of the block must be exactly this payload, field by field
@@ -930,7 +941,7 @@ func (d *hoDriver) mutatedProcess(h int64, round, proposer int, now time.Time, v
 	byzFinal := map[string]bool{"wrongParent": true, "wrongNumber": true, "wrongBeacon": true, "wrongProposer": true, "wrongRecipient": true,
 		"recipientPadded": true, "recipientShort": true, "sysAdded": true, "sysRemoved": true, "sysAltered": true, "countByte": true,
 		"reqGarbage": true, "gas0": true, "gas2": true, "futureTime": true, "blob": true, "timeoutWrong": true,
-		"blockChild": true, "blockLaterValid": true, "blockPairLater": true, "excessBlob": true, "gasFields": true}
+		"blockChild": true, "blockLaterValid": true, "blockPairLater": true, "excessBlob": true, "gasFields": true, "paddedParent": true, "paddedBeacon": true}
 	if byzFinal[mut] && h > c.InitialHeight && (skew || r.Intn(2) == 0) {
 		prevApp := c.App.LastCommitID().Hash
 		txsDigest := sha256.New()
